@@ -5,7 +5,7 @@ usage: tools/seedcheck.py <srcdir with patch.diff demo.py meta.json> <seed-id> [
 
 Steps (all in a fresh scratch worktree under /tmp, removed afterwards):
   1. demo on pristine tree must exit 0
-  2. patch applies; the 92 pinned tests still pass on the patched tree
+  2. patch applies; the pinned baseline command's 92 stable tests still pass on the patched tree
   3. demo on patched tree must exit non-zero
   4. each named check (default: the property in meta.json) is run with VERIF_REPO=<patched tree>;
      'caught' = exit 1 with a VIOLATION line
@@ -49,10 +49,23 @@ def main():
             res["steps"]["patch_err"] = out[-500:]
         env = dict(os.environ)
         env.pop("PYBROPS_VERIF", None)
-        rc, out = sh([PY, "-m", "pytest", "-q", "-p", "no:cacheprovider", "--timeout=900"] + TESTS, cwd=wt, env=env, timeout=1800)
+        jx = wt + ".junit.xml"
+        rc, out = sh([PY, "-m", "pytest", "-ra", "-q", "-p", "no:cacheprovider", "--timeout=900",
+                      "--continue-on-collection-errors", f"--junitxml={jx}"], cwd=wt, env=env, timeout=1800)
         tail = out.strip().splitlines()[-1] if out.strip() else ""
         res["steps"]["tests_patched"] = tail
-        res["steps"]["tests_pass"] = (rc == 0 and "92 passed" in tail)
+        import xml.etree.ElementTree as ET
+        okset = set()
+        try:
+            for tc in ET.parse(jx).iter("testcase"):
+                if not list(tc):
+                    okset.add(tc.get("classname") + "::" + tc.get("name"))
+        finally:
+            if os.path.exists(jx):
+                os.remove(jx)
+        base = set(json.load(open("/root/.vp/BASELINE.json"))["stable_pass"])
+        res["steps"]["baseline_missing"] = sorted(base - okset)
+        res["steps"]["tests_pass"] = base <= okset
         rc, out = sh([PY, demo, wt], timeout=900)
         res["steps"]["demo_patched_exit"] = rc
         res["steps"]["demo_patched_out"] = out[-400:]
